@@ -81,7 +81,7 @@ def _worker(arg):
                 model = r['model']
                 rec['model'] = str(model)[:4000] if model is not None else None
                 try:
-                    rec['inputs'] = chk.concretize(vc, model) if model is not None else None
+                    rec['inputs'] = chk.concretize(vc, model) if (model is not None or getattr(chk, 'replay_without_model', False)) else None
                 except Exception as ex:  # noqa: BLE001
                     rec['inputs'] = None
                     rec['concretize_error'] = repr(ex)
